@@ -117,6 +117,22 @@ def cases(rng, tier, stats):
             nt += len(lines)
             out.append(C.Case("deep-truncations", lines, C.compare_status_class, total_oracle, info={"src": G.render(toks, "oneline")[:300]}))
     stats["deep_truncations"] = nt
+    # long flat programs (scale): hundreds of statements each using unary operators, calls, groups, list / record literals
+    # and index chains once — acceptance must not depend on how much was parsed before
+    for kind in range(4):
+        prog = [("func", "জোড়", ["n"], [("return", G.bin_("==", G.bin_("%", G.var("n"), G.num(2)), G.num(0)))]), ("decl", "গণনা", G.num(0)), ("decl", "ত", G.lst(G.num(1), G.lst(G.num(2))))]
+        for i in range(260):
+            if kind == 0:
+                prog.append(("if", [(G.un("!", G.call("জোড়", G.num(i))), [("assign", "গণনা", [], G.bin_("+", G.var("গণনা"), G.num(1)))])], None))
+            elif kind == 1:
+                prog.append(("assign", "গণনা", [], G.bin_("+", G.un("-", G.var("গণনা")), G.un("-", G.grp(G.num(i))))))
+            elif kind == 2:
+                prog.append(("print", G.idx(G.idx(G.var("ত"), G.num(1)), G.num(0))))
+            else:
+                prog.append(("decl", "ট" + G.bn_digits(str(i)), G.lst(G.grp(G.grp(G.num(i))), G.rec((G.s("k"), G.call("জোড়", G.grp(G.num(i))))))))
+        toks = [t for t in G.toks_stmts(prog) if t[1] != "nl"]
+        src = G.render(toks, "lines" if kind % 2 else "oneline")
+        out.append(C.Case("valid-program", ["PARSE " + C.hx(src)], C.compare_status_class, total_oracle, info={"valid": True, "src": src[:200], "statements": len(prog)}, nontrivial=False))
     # hand-written malformed statements, one per syntax-error site of the parser that random mutation reaches rarely
     bad = ['মডিউল = "x.pakhi";', 'মডিউল ক "x.pakhi";', 'মডিউল ক = ;', 'মডিউল ক = ৫;', 'মডিউল ক = "x.pakhi"', 'দেখাও ক[০ ;', 'দেখাও ক[০ ১];', 'ক[০ = ১;', 'ক[০][ = ১;',
            'দেখাও @{"k" -> ১ ;', 'দেখাও @{"k" ১};', 'দেখাও @{"k" -> };', 'দেখাও @ ৫;', 'দেখাও @{"k" -> ১ "j" -> ২ ;', 'দেখাও [১, ২ ;', 'দেখাও (১ + ২ ;', 'দেখাও ফ(১, ;',
